@@ -119,17 +119,25 @@ with_relatives, render_raw, strip_raw = V.with_relatives, V.render_raw, V.strip_
 class C03:
     prop = "C03"
     lean_module = "Ogorek.Props.C03"
-    theorems = ["Ogorek.C03_int", "Ogorek.parseDecimal_fmtInt", "Ogorek.toSigned_ofSigned_32"]
+    theorems = ["Ogorek.C03_roundtrip_bin", "Ogorek.rt_val", "Ogorek.C03_int", "Ogorek.parseDecimal_fmtInt", "Ogorek.toSigned_ofSigned_32",
+                "Ogorek.goEqual_strip", "Ogorek.assignAll_of_keysOK"]
     trusted_base = TB_COMMON + ["strconv float formatting/parsing as modelled (exact-rational shortest digits, correct rounding); strconv.IsPrint table regenerated from the toolchain"]
-    level_text = ("Lean theorems proved so far cover the number layer of the round trip for ALL integers: encodeInt's four forms are read back "
-                  "as the same int64 and consumption stops exactly at the end (C03_int, from the decimal and two's-complement inverse "
-                  "lemmas parseDecimal_fmtInt / toSigned_ofSigned_32). PARTIAL: the structural induction over all values (containers, text "
-                  "codecs, float text) is not closed yet; the full statement is tied by correspondence: decode(encode(v)) is computed by "
-                  "the implementation and by the model for every generated value x protocol x mode and compared with each other and with "
-                  "the documented normal form; the argument is re-rendered after Encode to detect mutation.")
+    level_text = ("Lean theorem C03_roundtrip_bin, for ALL canonical values (None, bool, int64, *big.Int, float64 of any bit pattern, string, "
+                  "ByteString, Bytes, []byte, Class, and lists, Tuples, Calls, Refs, builtin maps and Dicts nested to any depth), protocols "
+                  "1-5, both StrictUnicode and both PyDict settings, from any decoder state: if Encode returns no error, Decode of exactly the "
+                  "bytes written succeeds, consumes all of them and returns a value identical in type and content (ByteString -> string "
+                  "without StrictUnicode, map <-> Dict by mode, big ints as fresh objects) - by mutual structural induction over the value "
+                  "(rt_val: every fragment of the encoder's output parses as instructions that push exactly one representing value and "
+                  "leave stack, memo and protocol alone), using the number lemmas (C03_int, parseDecimal_fmtInt, toSigned_ofSigned_32), the "
+                  "Latin-1 lemma for Bytes below protocol 3, and for maps/Dicts that equality and hashing ignore big-int identity "
+                  "(goEqual_strip) so DICT rebuilds the entries (assignAll_of_keysOK). Hypotheses: payloads < 2^32 bytes, keys of one "
+                  "literal pairwise different for the decoder's table. PARTIAL: protocol 0 (text codecs, float text), *big.Int keys of "
+                  "builtin maps, and the normal forms of non-canonical inputs are not in the theorem; they are tied by correspondence: "
+                  "decode(encode(v)) is computed by the implementation and by the model for every generated value x protocol x mode and "
+                  "compared with each other and with the documented normal form; the argument is re-rendered after Encode to detect mutation.")
     level_note = ("trusted: Lean kernel + standard axioms; encoder and decoder models (exact agreement required on every explored case); float "
                   "text conversion (strconv) as modelled by exact rational arithmetic")
-    technique = "Lean 4 proof of the codec and number round trips + differential correspondence of decode∘encode on generated values"
+    technique = "Lean 4 proof (mutual structural induction: Encode→Decode round trip for protocols 1-5) + differential correspondence of decode∘encode on generated values"
     rule = ("canonical values for each decoder configuration (None, bool, int64, *big.Int, float64 incl. NaN/-0/Inf/denormals, string, "
             "ByteString, Bytes, []byte, []any, Tuple, map/Dict incl. NaN / -0 / big keys, Class, Call, Ref) nested to depth 4, and "
             "non-canonical relatives (int8..int32, int, uint8..uint64 incl. > MaxInt64, float32, pointers, nil, map<->Dict across "
